@@ -166,6 +166,10 @@ class TracepointConfigService:
         # have more than one tracepoint registered on the same location.
         tp_id = str(uuid.uuid4())
         config = build_trigger(tp_id, path, line, args, watches, metrics)
+        if config is None:
+            # we cannot interpret this tracepoint, so there is nothing to install (or to remove later)
+            logging.warning("Cannot interpret tracepoint %s#%s: %s", path, line, args)
+            return tp_id
         self._custom.append(config)
         self._custom_ids[tp_id] = config
         self.__trigger_update(None, None)
